@@ -478,6 +478,14 @@ func checkOpened(b *sourcebundle.Bundle, root string, out *simkit.Outcome, what 
 		inside(lp, err, p.String())
 		lp, err = b.LocalPathForRemoteSource(p.SourceAddr("a/b"))
 		inside(lp, err, p.String()+"//a/b")
+		for _, sub := range []string{"%2e%2e/%2e%2e/secrets", "m%2f..%2f..%2f..%2fsecrets", "cpu%20load.tf"} {
+			// a sub-path is taken literally: nothing in it is an escape sequence
+			l2, e2 := b.LocalPathForRemoteSource(p.SourceAddr(sub))
+			inside(l2, e2, p.String()+"//"+sub)
+			if e2 == nil && filepath.Base(l2) != filepath.Base(sub) {
+				out.Violate("C18", "lookup-respelled", "unescaped", fmt.Sprintf("%s: lookup of %s//%s answers %s", what, p, sub, l2))
+			}
+		}
 		b.RemotePackageMeta(p)
 		if err == nil && simkit.Under(filepath.Clean(lp), root) && filepath.Clean(lp) != root {
 			// a path the bundle itself handed out lies in a package directory: it translates back
